@@ -18,6 +18,17 @@
 #define DYN 0
 #endif
 
+#if FLAVOR == 4
+/* registry arena: the anonymous mapping behind expand_arena() is a typed, zero-filled static object (one chunk of INIT_READER_COUNT
+ * readers, set through the URCU_VERIF hook); a second mapping (arena growth) is outside these obligations */
+static struct { struct registry_chunk hdr; struct urcu_bp_reader rd[INIT_READER_COUNT]; } CHUNK0 __attribute__((aligned(128)));
+static int chunk0_mapped;
+void *my_mmap(void *addr, size_t len, int prot, int flags, int fd, long off) {
+  (void)prot; (void)fd; (void)off;
+  rt_assert(addr == 0 && (flags & MAP_ANONYMOUS) && len == sizeof(CHUNK0) && !chunk0_mapped, "first anonymous mapping of the registry arena (growth is not modelled)");
+  chunk0_mapped = 1; return &CHUNK0;
+}
+#endif
 struct obj { int v; };
 struct obj *OBJ; int A, B;
 /* ghost cells: 40+r section-open flag of reader slot r, 44+r section instance counter, 48+u.. snapshot taken by updater u */
